@@ -8,7 +8,8 @@ Every history (list of events) is run three ways:
    through the real `_receive`; handlers record who was called with which name;
  * model (Model/Dispatch.v over Model/Trie.v, extracted): correspondence, differences -> ctx.disagree;
  * specification (Spec/DispatchSpec.v, extracted: a partial map prefix -> handler, "longest occupied prefix",
-   "sent iff t <= deadline, return value = sent"): evaluated against the implementation's observations,
+   "sent iff t <= deadline and the face is up, reported as sent iff sent"): evaluated against the
+   implementation's observations (what went out on the recording face, what reply() returned / raised),
    differences -> ctx.violation.
 Events between two `settle`s are executed inside one coroutine step (no loop turn in between), so
 "Interest arrives, handler detached in the same turn" is generated on purpose.
@@ -34,8 +35,17 @@ RULE = ('histories of attach/detach/receive/settle/reply/disconnect events over 
         'out of the real receive path is an observation (class delivery). Interests as wire packets (bytes and bytearray buffers, with/without lifetime, '
         'with/without PIT token); exhaustive block: subsets of a 9-node name tree x all 781 Interest names of depth '
         '<= 4 over 5 components (thorough: all 512 subsets, quick: 40), on all three front-ends; reply grid: lifetimes '
-        '{absent,0,1,100,4000,2^32} x reply time deadline-1/0/+1 ms x token {none, empty, 2 bytes}; a separate '
-        'stream adds None handlers and a stopped face (correspondence only). non-trivial = at least one attach and '
+        '{absent,0,1,100,4000,2^32} x reply time deadline-1/0/+1 ms x token {none, empty, 2 bytes}; state of the face '
+        'at the reply: `down` (the transport clears running / face.shutdown() / app.shutdown()) and `up` events anywhere '
+        'in a history plus a per-call flag; the same reply grid x 10 placements of the loss of the connection (before '
+        'the Interest, in the loop turn of its arrival, after the delivery, after a first reply, only during the call; '
+        'staying down, _clean_up, reconnected, loop turns in between) x the three ways; two-Interest reply '
+        'interleavings with the connection lost / restored among the replies; random histories draw down/up with p = '
+        '0.07 per step and 15 % of the replies on a face that is down for that call.  The recording face transmits only '
+        'while it is up (like a socket), so `sent` is what actually went out; demanded by the specification machine '
+        '(s_reply_out): the Data goes out iff t <= deadline and the face is up, and the callback reports "sent" (True) '
+        'exactly then -- False or NetworkError otherwise (classes reply-*-face-down).  A separate '
+        'stream adds None handlers (correspondence only). non-trivial = at least one attach and '
         'one Interest; distinct by history hash')
 ASSUMPTIONS = [
     'events separated by `settle` are separated by loop quiescence; events inside one turn run without a loop turn '
@@ -43,6 +53,8 @@ ASSUMPTIONS = [
     'plain Interests only (no ApplicationParameters / signature): the validation gate is C05',
     'pygtrie 2.6.1 is modelled by Model/Trie.v (exercised, not verified); name normalisation is C09',
     'handlers are distinct callables; None as a handler is outside the specification (correspondence only)',
+    'a face transmits nothing while `running` is false (the recording face drops such bytes, as a closed socket does); '
+    'a NetworkError out of reply() counts as "not reported as sent"',
 ]
 
 FE_V2, FE_V1, FE_DISP = 2, 1, 0
@@ -51,13 +63,16 @@ FE_NAME = {2: 'appv2.NDNApp', 1: 'app.NDNApp', 0: 'dispatcher.Dispatcher'}
 
 # ---- implementation adapters ----------------------------------------------------------------------
 class Face:
+    """Recording face.  Like a socket, it transmits only while it is up: bytes handed to send() while it is
+    down go nowhere (`dropped`), so `sent` is what actually went out."""
     def __init__(self):
         self.running = True
         self.sent = []
+        self.dropped = []
         self.callback = None
 
     def send(self, data):
-        self.sent.append(bytes(data))
+        (self.sent if self.running else self.dropped).append(bytes(data))
 
     def shutdown(self):
         self.running = False
@@ -119,6 +134,8 @@ class Impl:
         self.validators = {}
         self.tokens = []
         self.bufs = []         # caller-owned writable buffers handed to attach/detach: (buffer, image per mode)
+        self.up = True         # state of the face between events (`down` / `up` events)
+        self.env_errors = []   # exceptions out of shutdown() (environment events have no observation of their own)
         if fe == FE_V2:
             from ndn.appv2 import NDNApp
             self.reg = Reg()
@@ -215,20 +232,41 @@ class Impl:
         self.seen = len(self.calls)
         return [[c[0], c[1], c[2]] for c in new]
 
+    def down(self, how):
+        """the connection goes away: 0 the transport notices (running cleared), 1 face.shutdown(), 2 app.shutdown()"""
+        self.up = False
+        if self.fe == FE_DISP:
+            return
+        try:
+            if how == 1:
+                self.face.shutdown()
+            elif how == 2:
+                self.app.shutdown()
+        except Exception as e:   # noqa
+            self.env_errors.append(e)
+        self.face.running = False
+
+    def come_up(self):
+        self.up = True
+        self.face.running = True
+
     def reply(self, i, running, data):
+        """[4, packets that went out on the face, return value] | [7, packets that went out, exception class]
+        (reply raised) | [0, code] (no such reply callback).  `running` False: the face is down for this call."""
         if self.fe != FE_V2:
             return [0, 9]
         if i >= len(self.calls):
             return [0, 2]
-        self.face.running = running
+        self.face.running = bool(running and self.up)
         n0 = len(self.face.sent)
         try:
             r = self.calls[i][3](data)
         except Exception as e:   # noqa
-            self.face.running = True
-            return [0, err_code(e)]
-        self.face.running = True
+            sent = len(self.face.sent) - n0
+            self.face.running = self.up
+            return [7, sent, err_code(e)]
         sent = len(self.face.sent) - n0
+        self.face.running = self.up
         code = {None: 0, False: 1, True: 2}.get(r, 9) if (r is None or isinstance(r, bool)) else 9
         return [4, sent, code]
 
@@ -386,13 +424,32 @@ def ns_sexp(arg):
 # harness-level events:
 #   ('att', name, hid, vid, raw, sig, repr_kind, via_route) ('det', name, repr_kind)
 #   ('recv', name, life, now, buf_kind, token) ('settle',) ('reply', i, now, running) ('clean',)
+#   ('down', how) / ('up',): the face goes down (0 the transport clears `running`, 1 face.shutdown(), 2 app.shutdown())
+#       and stays down until `up` (reconnected).  Not events of the model or the specification either: they fix
+#       the `up` argument of the reply events that follow (face_states); the 4th field of `reply` is a per-call
+#       override (False: the face is down during this one call).
 #   ('scrib', mode): the caller overwrites every writable buffer it handed to attach/detach so far (see `images`).
 #       Not an event of the model or of the specification: attachments are values there, so the observations
 #       demanded for the rest of the history are those of the history without the scrib events.
+SILENT = ('scrib', 'down', 'up')     # harness-level events without an observation of their own
+
+
+def face_states(h):
+    """per event of h: is the face up when the event happens (`down` / `up` events, and the per-call flag of reply)"""
+    up, out = True, []
+    for e in h:
+        if e[0] == 'down':
+            up = False
+        elif e[0] == 'up':
+            up = True
+        out.append(bool(up and e[3]) if e[0] == 'reply' else up)
+    return out
+
+
 def model_ops(h):
     out = []
-    for e in h:
-        if e[0] == 'scrib':
+    for e, up in zip(h, face_states(h)):
+        if e[0] in SILENT:
             continue
         if e[0] == 'att':
             out.append([1, e[1], [] if e[2] is None else [e[2]], [] if e[3] is None else [e[3]], e[4], e[5]])
@@ -403,17 +460,18 @@ def model_ops(h):
         elif e[0] == 'settle':
             out.append([4])
         elif e[0] == 'reply':
-            out.append([5, e[1], e[2], e[3]])
+            out.append([5, e[1], e[2], up])
         else:
             out.append([6])
     return out
 
 
 def spec_ops(fe, h):
-    """None when the history leaves the specification's alphabet (None handler, stopped face, reply in v1)."""
+    """None when the history leaves the specification's alphabet (None handler, reply in v1).  The state of the
+    face at each reply (up / down, whichever way it went down) is part of the specification's event."""
     out = []
-    for e in h:
-        if e[0] == 'scrib':
+    for e, up in zip(h, face_states(h)):
+        if e[0] in SILENT:
             continue
         if e[0] == 'att':
             if e[2] is None:
@@ -426,9 +484,9 @@ def spec_ops(fe, h):
         elif e[0] == 'settle':
             out.append([4])
         elif e[0] == 'reply':
-            if fe != FE_V2 or not e[3]:
+            if fe != FE_V2:
                 return None
-            out.append([5, e[1], e[2]])
+            out.append([5, e[1], e[2], up])
         else:
             out.append([6])
     return out
@@ -447,8 +505,12 @@ def abstract(fe, e, o):
     if e[0] == 'settle':
         return [5, o[1]]
     if e[0] == 'reply':
+        # [7, did the Data go out on the face, did the callback tell the application "sent" (return True)];
+        # a NetworkError out of reply() tells the application "not sent"
         if o[0] == 4:
             return [7, 1 if o[1] else 0, 1 if o[2] == 2 else 0] if o[1] in (0, 1) and o[2] in (0, 1, 2) else ['odd', o]
+        if o[0] == 7:
+            return [7, 1 if o[1] else 0, 0] if o[1] in (0, 1) and o[2] == 101 else ['exc', o]
         return [8] if o == [0, 2] else ['exc', o]
     return [1] if o == [1] else ['exc', o]
 
@@ -494,6 +556,11 @@ def run_history(ctx, fe, h, stratum, state, check_nodes=True):
                     reply_bytes.append((e[1], None))
             elif e[0] == 'clean':
                 obs.append(impl.cleanup())
+            elif e[0] == 'down':
+                impl.down(e[1])
+                ctx.stat(f'face-down:how{e[1]}')
+            elif e[0] == 'up':
+                impl.come_up()
             elif e[0] == 'scrib':
                 for b, imgs in impl.bufs:
                     b[:] = imgs[e[1]]
@@ -515,9 +582,13 @@ def run_history(ctx, fe, h, stratum, state, check_nodes=True):
     loop.errors.clear()
     case = {'fe': FE_NAME[fe], 'history': h}
     full = h                                                   # with the scrib events
-    pos = [i for i, e in enumerate(full) if e[0] != 'scrib']   # observed event j is full[pos[j]]
+    pos = [i for i, e in enumerate(full) if e[0] not in SILENT]   # observed event j is full[pos[j]]
+    mops, sops = model_ops(full), spec_ops(fe, full)
+    ups = face_states(full)
     h = [full[i] for i in pos]
     reuse = '-after-caller-buffer-reuse'
+    if impl.env_errors:
+        ctx.violation(FE_NAME[fe], 'disconnect', f'shutdown raised {impl.env_errors[0]!r}', case)
 
     def reused(j):             # did the caller overwrite a buffer it had handed over before observed event j?
         seen = False
@@ -532,7 +603,7 @@ def run_history(ctx, fe, h, stratum, state, check_nodes=True):
                       f'exception reached the loop handler: {str(errs[0])[:200]}', case)
 
     # -- correspondence ------------------------------------------------------------------------------
-    m = ctx.call([1, fe, model_ops(h)])
+    m = ctx.call([1, fe, mops])
     if is_err(m):
         ctx.disagree('C04.run', 'model rejected the request', case, m, None)
         return
@@ -545,6 +616,8 @@ def run_history(ctx, fe, h, stratum, state, check_nodes=True):
             ok = io[0] == 3 and [[c[0], [bytes(x) for x in c[1]], c[2]] for c in mo[1]] == io[1]
         elif mo[0] == 5:
             ok = io[0] == 5 and mo[1] == io[1] and [[c[0], [bytes(x) for x in c[1]], c[2]] for c in mo[2]] == io[2]
+        elif io[0] == 7:      # reply raised: the model raises the same class and nothing went out
+            ok = mo == [0, io[2]] and io[1] == 0
         else:
             ok = mo == io
         if not ok:
@@ -602,7 +675,7 @@ def run_history(ctx, fe, h, stratum, state, check_nodes=True):
                           '(bare without PIT token, inside an LpPacket echoing the token otherwise)', case)
 
     # -- specification oracle on the implementation's observations ------------------------------------
-    so = spec_ops(fe, h)
+    so = sops
     if so is not None:
         sobs = ctx.call([2, fe, so])
         for j, (e, s, io) in enumerate(zip(h, sobs, obs)):
@@ -617,10 +690,16 @@ def run_history(ctx, fe, h, stratum, state, check_nodes=True):
                         cls = 'reply-return-not-truthful'
                     else:
                         cls = 'reply-outcome'
+                    if not ups[pos[j]]:
+                        cls += '-face-down'
                 else:
                     cls = VCLASS[e[0]]
+                note = ''
+                if e[0] == 'reply':
+                    note = (' [reply: (went out on the face, reported as sent); the face is '
+                            + ('up' if ups[pos[j]] else 'DOWN') + ' at this reply]')
                 ctx.violation(FE_NAME[fe], cls + (reuse if reused(j) else ''),
-                              f'event {pos[j]} {e[0]}: specification demands {s}, implementation did {a}',
+                              f'event {pos[j]} {e[0]}: specification demands {s}, implementation did {a}{note}',
                               {'fe': FE_NAME[fe], 'history': full[:pos[j] + 1]})
                 break
         ctx.stat('oracle_histories')
@@ -652,6 +731,7 @@ def gen_history(rng, fe, cs, wf=True):
     pend = 0
     next_h = 1
     deadlines = []  # (deadline) per recv in order (only a hint: some are not delivered)
+    down = False
     for _ in range(rng.randint(4, 40)):
         r = rng.random()
         if r < 0.30 or not used:
@@ -697,10 +777,13 @@ def gen_history(rng, fe, cs, wf=True):
                 d = rng.choice(deadlines) if deadlines else t
                 now = max(t, d + rng.choice([-1, 0, 1, -50, 50]))
                 t = now
-                running = True if wf else rng.random() < 0.7
+                running = rng.random() < (0.85 if wf else 0.7)
                 h.append(('reply', i, now, running))
         else:
             h.append(('clean',))
+        if fe != FE_DISP and rng.random() < 0.07:   # the connection goes away / comes back
+            h.append(('up',) if down else ('down', rng.randrange(3)))
+            down = not down
         if rng.random() < 0.12:     # the caller reuses the buffers it passed to attach/detach so far
             h.append(('scrib', rng.randrange(N_MODES)))
         if rng.random() < 0.3:
@@ -755,6 +838,54 @@ def run(ctx):
                         sr = ctx.call([4, d, d + delta])
                         if mr != [1, [sr, 2 if sr else 1]]:
                             ctx.disagree('reply_closure', 'model closure vs specification', [d, d + delta], mr, sr)
+        # ---- 1b. reply grid x state of the face: the connection goes away (three ways) at every point between
+        # the arrival of the Interest and the reply -- before the Interest, in the loop turn of its arrival, after
+        # the delivery, after a first reply --, stays down / is cleaned up / comes back; the handler kept `reply`
+        # and calls it before, at and after the deadline.  Demanded: the Data goes out iff inside the lifetime and
+        # the face is up, and "sent" (True) is reported exactly then (False or NetworkError otherwise).
+        b = comp('b')
+
+        def face_patterns(rp, how):
+            return [
+                ('down-after-delivery', [('settle',), ('down', how), rp, rp]),
+                ('down-clean', [('settle',), ('down', how), ('clean',), rp]),
+                ('down-up', [('settle',), ('down', how), ('up',), rp, rp]),
+                ('down-clean-up', [('settle',), ('down', how), ('clean',), ('up',), rp]),
+                ('reply-down-reply', [('settle',), rp, ('down', how), rp]),
+                ('down-reply-up-reply', [('settle',), ('down', how), rp, ('up',), rp]),
+                ('down-in-arrival-turn', [('down', how), ('settle',), rp, ('up',), rp]),
+                ('down-before-arrival', None),
+                ('down-during-call', [('settle',), rp[:3] + (False,), rp, rp[:3] + (False,)]),
+                ('down-settle-reply', [('settle',), ('down', how), ('settle',), rp, ('settle',), ('up',), ('settle',), rp]),
+            ]
+        gi = 0
+        for life in (None, 0, 1, 100, 4000, 1 << 32):
+            for delta in (-1, 0, 1, -1000, 1000):
+                t0 = 1_000_000
+                d = t0 + (4000 if life is None else life)
+                if d + delta < t0:
+                    continue
+                for tok in (None, b'', b'\x01\x02'):
+                    rp = ('reply', 0, d + delta, True)
+                    for pi in range(10):
+                        hows = (0, 1, 2) if pi == 0 else ((gi + pi) % 3,)
+                        for how in hows:
+                            nm, mid = face_patterns(rp, how)[pi]
+                            gi += 1
+                            att = ('att', [a], 1, None, 0, 0, rng.randrange(N_KINDS), gi % 2)
+                            rc = ('recv', [a, b], life, t0, gi % 2, tok)
+                            if mid is None:
+                                h = [att, ('down', how), rc, ('settle',), rp, ('up',), rp]
+                            else:
+                                h = [att, rc] + mid
+                            run_history(ctx, FE_V2, h + [('settle',)], 'reply-face-' + nm, state)
+                    for u in (0, 1):
+                        mr = ctx.call([5, d, d + delta, u])
+                        sr = ctx.call([4, d, d + delta, u])
+                        want = [1, [sr, 2 if sr else 1]] if (u or d + delta > d) else [0, 101]
+                        if mr != want or sr != (1 if (u and d + delta <= d) else 0):
+                            ctx.disagree('reply_closure', 'model closure vs specification (face state)',
+                                         [d, d + delta, u], mr, sr)
         # two Interests with different lifetimes, replies in both orders around both deadlines
         for l1, l2 in ((100, 200), (200, 100), (0, 4000), (None, 1)):
             for k in range(ctx.n(6, 40)):
@@ -767,6 +898,13 @@ def run(ctx):
                     ev.append(('reply', rng.randrange(2), t, True))
                 ev.append(('settle',))
                 run_history(ctx, FE_V2, ev, 'reply-two', state)
+                # the same with the connection lost (and possibly restored) somewhere among the replies
+                ev2 = ev[:-1]
+                i1 = rng.randrange(5, len(ev2) + 1)
+                ev2.insert(i1, ('down', k % 3))
+                if rng.random() < 0.6:
+                    ev2.insert(rng.randrange(i1 + 1, len(ev2) + 1), ('up',))
+                run_history(ctx, FE_V2, ev2 + [('settle',)], 'reply-two-face', state)
 
         # ---- 2. exhaustive block: subsets of a 9-node tree x all names of depth <= 4 ------------------
         nodes, names = tree_names()
